@@ -54,7 +54,7 @@ class JwtDecodeVerifyTransformer(LibcstResultTransformer):
 
     def on_result_found(self, original_node, updated_node):
         new_args = self.replace_args(
-            original_node, [NewArg(name="verify", value="True", add_if_missing=False)]
+            updated_node, [NewArg(name="verify", value="True", add_if_missing=False)]
         )
         return self.update_arg_target(updated_node, new_args)
 
